@@ -83,7 +83,8 @@ def check(ctx):
         "which of two conflicting productions the LALR table selects for `@(x)` alone (checked as delivered: list_of_strs_or_callables)",
     ]
     ctx.rule("R1", "every production of subproc_atom has an action that assigns the delivery mode on every path, and each source form has the documented (helper, mode) pair; the assembler applies exactly one wrapper per mode", floor=25)
-    ctx.rule("R7", "the @() helper delivers one argument per element: a scalar becomes a one-element list, an iterable is mapped element by element with nothing filtered, merged or reordered", floor=3)
+    ctx.rule("R7", "values are delivered as computed: the @() helper yields one argument per element (a scalar becomes a one-element list, an iterable is mapped element by element with nothing filtered, merged or reordered); the literal chunks of an f-string argument get their value from the host parser", floor=4)
+    ctx.rule("R8", "sibling string-literal actions agree on rawness: every grammar action that reads `'r' in prefix` of a string token hands that flag on to the node it builds (`is_raw`), which is what keeps `$VAR`/`~` in raw strings unexpanded", floor=3)
     ctx.rule("R2", "values containing an @()/$() part are not globbed, expanded or split again on their way to the argument list", floor=2)
     ctx.rule("R3", "@$() output is split with the shell lexer only", floor=2)
     ctx.rule("R6", "the `$VAR` expansion of non-raw literals is one positional pass over the references of the original text", floor=2)
@@ -210,6 +211,43 @@ def check(ctx):
     ok = len(consts) == 1 and any((unparse(k.value) in src_names and len(adefs[unparse(k.value)]) == 1) or (not isinstance(k.value, ast.Name) and "self._source_slice" in unparse(k.value)) for k in consts[0].keywords if k.arg == "s")
     ctx.ob("R1", f"{BP}:BaseParser._append_subproc_bang", "text after a macro `!` becomes one constant taken from the source slice", ok, key="macro-tail")
 
+    # ------------------------------------------------------------------ R8
+    n8 = 0
+    for rel8 in ("xonsh/parsers/base.py", "xonsh/parsers/v313.py", "xonsh/parsers/fstring_rules_llm.py"):
+        try:
+            m8 = ctx.repo.module(rel8)
+        except Exception:
+            continue
+        for q8, f8 in m8.functions():
+            if not q8.split(".")[-1].startswith("p_"):
+                continue
+            reads = [c for c in ast.walk(f8) if isinstance(c, ast.Compare) and len(c.ops) == 1 and isinstance(c.ops[0], ast.In) and const_value(c.left, None) == "r"]  # (in a grammar action: the raw-prefix test, whatever the local is called)
+            if not reads:
+                continue
+            n8 += 1
+            d8 = df.all_defs(f8)
+            rnames = {n_ for n_, ds_ in d8.items() if any(d_.value is not None and any(c is x for c in reads for x in ast.walk(d_.value)) for d_ in ds_)}
+            handed = False
+            for n in ast.walk(f8):
+                # `<node>.is_raw = <flag>` / `is_raw=<flag>` / `<node>.is_raw = True` under `if 'r' in prefix`
+                val = None
+                if isinstance(n, ast.Assign) and any(isinstance(t, ast.Attribute) and t.attr == "is_raw" for t in n.targets):
+                    val = n.value
+                elif isinstance(n, ast.keyword) and n.arg == "is_raw":
+                    val = n.value
+                if val is None:
+                    continue
+                if (isinstance(val, ast.Name) and val.id in rnames) or any(val is c or any(c is x for x in ast.walk(val)) for c in reads):
+                    handed = True
+                elif const_value(val, None) is True and any(isinstance(a_, ast.If) and (any(c is x for c in reads for x in ast.walk(a_.test)) or any(isinstance(x, ast.Name) and x.id in rnames for x in ast.walk(a_.test))) and any(n is b_ or lexically_inside(n, b_) for b_ in a_.body) for a_ in ancestors(n)):
+                    handed = True
+            ctx.ob("R8", f"{rel8}:{q8}", "the raw flag read from the prefix is handed on to the node (`is_raw`)", handed, key=f"{q8.split('.')[-1]}|raw-flag-not-handed-on", where=loc(reads[0]), detail=None if handed else "the flag is computed but the node never gets it: p_subproc_atom_str then wraps the literal in expand_path() like a non-raw string")
+    if n8 < 3:
+        raise AnalysisError(f"only {n8} string-literal actions that read the raw prefix found")
+    # (an f-string argument: the chunks' values are the host parser's - shared with C01.R12)
+    from .c01 import fstring_chunk_values as _fcv
+
+    _fcv(ctx, "R7")
     # ------------------------------------------------------------------ R7
     from ..engine import dtable as _dt
 
@@ -559,5 +597,5 @@ META = {
     "themselves (tokenizer regexes, literal_eval) are not decided.",
     "note": "Decides the listed structural clauses, not the behaviour. The grammar is read by importing "
     "xonsh.parsers from the analysed tree in a helper subprocess (static initialisers only; nothing is parsed).",
-    "more": 'Also decided: every return path of the @() helper is a one-element list of the value or an unfiltered element-wise map over it.',
+    "more": 'Also decided: every return path of the @() helper is a one-element list of the value or an unfiltered element-wise map over it. Every grammar action that reads the raw prefix hands `is_raw` on to the node it builds (raw f-strings on 3.12 included); f-string chunk values come from the host parser.',
 }
